@@ -71,21 +71,24 @@ def record(ctx: Ctx, templates: list, per_template: int, iters: int = 4, cache=N
                 from .core import relieve_jit
                 relieve_jit()
             for tr in dof.record_offpolicy(cache, cfg, t["algo"], iters, seed):
-                cut_after_8_dones(tr, tb.exact_dones_limit(cfg))
+                cut_after_8_dones(tr)
                 traces.append(tr)
                 cases.append({"cfg": cfg, "algo": t["algo"], "iters": iters, "seed": seed, "env": tr["meta"]["env"]})
     return traces, cases
 
 
-def cut_after_8_dones(tr, limit: int = 8):
+def cut_after_8_dones(tr):
     """the EMA of the logging statistics is exact (SD = 4^8) for at most 8 episode ends (fewer with large rewards,
     tables.exact_dones_limit): drop later events"""
     n, keep = 0, []
     last_snap = 0
+    big = False
     for i, e in enumerate(tr["events"]):
+        if e["ev"] == "row" and abs(e["rew"]) >= tb.BIG_REWARD and e["rew"] != 7777777:
+            big = True
         if e["ev"] == "row" and e["done"]:
             n += 1
-        if n > limit:
+        if n > tb.exact_dones_limit(big):
             break
         keep.append(e)
         if e["ev"] == "snap":
@@ -157,7 +160,7 @@ def replay(ctx: Ctx, pid: str, case: dict, only=None) -> Report:
     trs = dof.record_offpolicy(tb.EnvCache(), case["cfg"], case["algo"], case["iters"], case["seed"])
     trs = [t for t in trs if t["meta"]["env"] == case["env"]]
     for t in trs:
-        cut_after_8_dones(t, tb.exact_dones_limit(case["cfg"]))
+        cut_after_8_dones(t)
     v = tracecheck.validate(ctx, TRACE_SPEC, trs, "replay")
     rep.traces = len(trs)
     rep.violations += violations_from(pid, v, trs, [case] * len(trs), only)
